@@ -105,6 +105,7 @@ type Exec struct {
 	dirty  map[string]bool
 	sorts  []sortEvent
 	closures []*ssa.Function // function constants materialised by this activation
+	mapLits  map[*cell][][2]Term // straight-line map literals: the (key, value) pairs stored so far
 }
 
 func (e *Exec) root() *Exec {
@@ -750,6 +751,15 @@ func (e *Exec) block(b *ssa.BasicBlock) {
 
 func (e *Exec) contMode() bool { return e.subset != nil }
 
+func (e *Exec) inAnyLoop(b *ssa.BasicBlock) bool {
+	for _, l := range e.loops.loops {
+		if l.blocks[b] {
+			return true
+		}
+	}
+	return false
+}
+
 func (e *Exec) parentCellOr(c *cell) Term {
 	if e.parent != nil {
 		return e.parent.cellGet(c)
@@ -916,6 +926,14 @@ func (e *Exec) instr(b *ssa.BasicBlock, in ssa.Instruction, preds []*ssa.BasicBl
 		s := e.g.sortOf(x.Map.Type())
 		old := e.cellGet(m.cell)
 		k, v := e.term(x.Key), e.term(x.Value)
+		if r := e.root(); e.parent == nil && e.loops.header != nil && !e.inAnyLoop(e.curBlock) {
+			if r.mapLits == nil {
+				r.mapLits = map[*cell][][2]Term{}
+			}
+			r.mapLits[m.cell] = append(r.mapLits[m.cell], [2]Term{k, v})
+		} else if r := e.root(); r.mapLits != nil {
+			r.mapLits[m.cell] = append(r.mapLits[m.cell], [2]Term{"", ""}) // poisoned: contents no longer a literal
+		}
 		e.cellSet(m.cell, fmt.Sprintf("(mk_%s false (store (val_%s %s) %s %s) (store (has_%s %s) %s true))", s, s, old, k, v, s, old, k))
 	case *ssa.Slice:
 		e.sliceInstr(x)
@@ -1227,6 +1245,25 @@ func (e *Exec) lookupInstr(x *ssa.Lookup) {
 	v := fmt.Sprintf("(select (val_%s %s) %s)", s, mt, k)
 	ok := fmt.Sprintf("(select (has_%s %s) %s)", s, mt, k)
 	elemT := x.X.Type().Underlying().(*types.Map).Elem()
+	if m.cell != nil {
+		// a map built by straight-line updates (a map literal): read it as a chain of key tests
+		if ents := e.root().mapLits[m.cell]; len(ents) > 0 {
+			lit := true
+			for _, en := range ents {
+				if en[0] == "" {
+					lit = false
+				}
+			}
+			if lit {
+				v = e.g.zero(elemT)
+				ok = "false"
+				for _, en := range ents {
+					v = ite(eq(k, en[0]), en[1], v)
+					ok = ite(eq(k, en[0]), "true", ok)
+				}
+			}
+		}
+	}
 	if x.CommaOk {
 		tv := e.def(x.Name()+"_v", e.g.sortOf(elemT), ite(ok, v, e.g.zero(elemT)))
 		to := e.def(x.Name()+"_ok", "Bool", ok)
